@@ -126,6 +126,12 @@ def run_post_case(impl, case, out):
     try:
         sid = peer.sid_of(peer.open_polling(w))
         pending = peer.poll(w, sid) if with_poll else None
+        mid = case.get('session') == 'mid_upgrade'
+        if mid:
+            # the handshake has got as far as the probe: POSTs keep flowing on polling in this window
+            up = peer.ws_upgrade(w, sid)
+            w.ws_send(up, '2probe')
+            w.run()
         w.run_until(T_BODY)
         body = '\x1e'.join(pkts)
         ref = ref_dispatch(pkts, 'polling')
@@ -154,6 +160,8 @@ def run_post_case(impl, case, out):
                 V(out, impl, 'valid_body_refused', 'body', 'status %r' % r.status, case)
             if not alive or disc:
                 V(out, impl, 'session_ended_unexpectedly', 'body', 'alive=%s disconnects=%r' % (alive, [d[2] for d in disc]), case)
+            if mid:
+                return          # polls are on hold during the handshake: PING / NOOP delivery is C03/C06/C07's business
             # PONG re-arms the heartbeat; UPGRADE is answered with NOOP
             pings, noops = [], []
             poll_loop(w, sid, T_BODY + INTERVAL + 0.25, pings, noops, pending)
@@ -313,6 +321,8 @@ def run(ctx):
             for b in bodies:
                 for poll in ((True,) if ctx.quick else (True, False)):
                     jobs.append(('post', impl, {'pkts': b, 'async_handlers': mode, 'poll': poll}))
+                if len(b) <= 2:
+                    jobs.append(('post', impl, {'pkts': b, 'async_handlers': mode, 'poll': True, 'session': 'mid_upgrade'}))
             for f in fseqs:
                 for sk in ('ws_only', 'upgraded'):
                     jobs.append(('ws', impl, {'pkts': f, 'async_handlers': mode, 'session': sk}))
@@ -336,7 +346,7 @@ def run(ctx):
         'evaluations': n, 'distinct_nontrivial': n,
         'rule': 'every POST body of <= %d packets over %r (plus the complete depth-3 slice with a seed-chosen first packet at the '
                 'quick tier, and 16/17/18-packet bodies) and every sequence of <= %d frames over the same alphabet plus raw '
-                'binary, empty, invalid base64 and bare "4"; sessions: polling (pending poll%s), WebSocket-only, upgraded; '
+                'binary, empty, invalid base64 and bare "4"; sessions: polling (pending poll%s), polling in the middle of an upgrade handshake, WebSocket-only, upgraded; '
                 'async_handlers in {False, True}; Server and AsyncServer. states = distinct canonical digests of the final world '
                 'state over all histories; transitions = scheduler steps executed on the real servers; traces = histories.'
                 % (depth, PKTS, depth, '' if ctx.quick else ' on/off'),
@@ -355,7 +365,7 @@ def replay(ctx, payload):
     r = report.unbytes(payload['replay'])
     out = []
     c = r['case']
-    if 'session' in c:
+    if 'session' in c and c['session'] != 'mid_upgrade':
         run_ws_case(r['impl'], c, out)
     elif 'sid' in c:
         run_dead_sid_cases(r['impl'], out)
